@@ -92,7 +92,9 @@ CLAIMED["C13"] = dict(
          "any number of creators, locked sections split into acquire/body/release, the unlocked next_ping read-modify-write split "
          "in two): the polling loop never fires a timer before its deadline; scans are at most one interval apart; while the daemon "
          "runs an unfired registered Till implies clock <= max(deadline, registration) + INTERVAL; non-positive seconds yield the "
-         "always-true signal; Till(till=absolute) is always registered, also with a deadline in the past.",
+         "always-true signal; Till(till=absolute) is always registered, also with a deadline in the past; L2 (C13_daemon_settles, "
+         "Props/TillLive.lean): the daemon does not spin - with no new Till and no passing of time every schedule takes at most an "
+         "explicit rank of steps and ends with every creation complete and the daemon asleep (wake-up time ahead) or done.",
     design="§5 C13", technique="Lean 4 inductive invariant (32 fields, Int arithmetic by omega, sort/split list lemmas) + trace acceptance of the real daemon on a virtual clock",
     note="Trusted: Lean kernel + standard axioms; model Till.lean tied to till.py by trace acceptance under the deterministic scheduler "
          "(thread-local steps taken eagerly); idle-system clock discipline (time passes only while the daemon sleeps and no creation "
@@ -101,7 +103,9 @@ CLAIMED["C14"] = dict(
     text="Lean 4 theorems on the same model (of the REPAIRED Till.__init__): when the daemon has finished its shutdown and no "
          "creation is in progress every Till ever created is true; creators can always finish; L1: no Till is untriggered in any "
          "quiescent state after daemon end; a Till requested after disable is the always-true signal; a creation caught mid-way "
-         "fires itself. The pinned tree violated this (stranded creation during the final drain): fixed in /repo, replay in corpus.",
+         "fires itself; L2 (C14_shutdown_completes): once a stop is requested and the daemon is at its loop test (or its sleep is "
+         "over) every schedule ends, within the rank bound, with the daemon done and every Till ever created true. "
+         "The pinned tree violated this (stranded creation during the final drain): fixed in /repo, replay in corpus.",
     design="§5 C14, §7", technique="Lean 4 inductive invariant + L1 quiescence theorem + trace acceptance with shutdown at every step of creation",
     note="Same trusted base as C13. The two generations of the `enabled` signal (stale object reads) are modelled explicitly.")
 
